@@ -85,7 +85,8 @@ type SchedOut struct {
 
 var opMenu = []string{"ScalarBaseMult", "VarTimeDoubleScalarBaseMult", "ScalarMult", "MultiScalarMult", "VarTimeMultiScalarMult",
 	"Add", "BytesRoundTrip", "NewGenerator", "ScalarInvert", "MultByCofactor",
-	"Encode", "ScalarArith", "FieldArith", "NegateSubtract", "CoordsRoundTrip", "Equal"}
+	"Encode", "ScalarArith", "FieldArith", "NegateSubtract", "CoordsRoundTrip", "Equal",
+	"SetterErrors", "ScalarSweep", "ElementSweep", "MultiMany"}
 
 func genSchedTrace(base, idx uint64, small bool) (*SchedTrace, sched.Policy, uint64) {
 	seed := prng.Derive(base, "C18", idx)
@@ -114,7 +115,7 @@ func genSchedTrace(base, idx uint64, small bool) (*SchedTrace, sched.Policy, uin
 	if small {
 		nt = 2 + rng.Intn(3)
 	}
-	w := []int{10, 8, 2, 2, 2, 1, 1, 1, 1, 1, 1, 1, 1, 1, 1, 1}
+	w := []int{10, 8, 2, 2, 2, 1, 1, 1, 1, 1, 1, 1, 1, 1, 1, 1, 1, 1, 1, 1}
 	for i := 0; i < nt; i++ {
 		nops := 1 + rng.Intn(3)
 		if small {
@@ -148,8 +149,17 @@ func genSchedTrace(base, idx uint64, small bool) (*SchedTrace, sched.Policy, uin
 				op.P = []int{pick()}
 			case "NegateSubtract", "Equal":
 				op.P = []int{pick(), pick()}
-			case "ScalarArith":
+			case "ScalarArith", "ScalarSweep":
 				op.S = []int{rng.Intn(ns), rng.Intn(ns), rng.Intn(ns)}
+			case "SetterErrors", "ElementSweep":
+				op.P = []int{pick()}
+				op.S = []int{rng.Intn(ns)}
+			case "MultiMany":
+				n := 13 + rng.Intn(8)
+				for k := 0; k < n; k++ {
+					op.S = append(op.S, rng.Intn(ns))
+					op.P = append(op.P, rng.Intn(np))
+				}
 			case "FieldArith":
 				op.P = []int{pick()}
 			}
@@ -282,6 +292,59 @@ func runProgram(prog []TOp, sh *shared, out *[]string) {
 				f.Absolute(f.Subtract(&f, &e))
 				extra = fmt.Sprintf(" x=%x sqrt=%x/%d abs=%x neg=%d", f.Bytes(), r.Bytes(), wasSq, f.Bytes(), e.IsNegative())
 				recv = edwards25519.NewIdentityPoint()
+			case "SetterErrors":
+				// every fallible setter on a rejected input, receivers holding values
+				p := new(edwards25519.Point).Set(pt(op.P[0]))
+				s := new(edwards25519.Scalar).Set(sc(op.S[0]))
+				var e field.Element
+				e.One()
+				bad := make([]byte, 32)
+				bad[0] = 2 // y = 2 is not on the curve
+				big := bytes.Repeat([]byte{0xff}, 32)
+				_, e1 := p.SetBytes(bad)
+				_, e2 := p.SetBytes(bad[:31])
+				_, e3 := s.SetCanonicalBytes(big)
+				_, e4 := s.SetUniformBytes(big)
+				_, e5 := s.SetBytesWithClamping(big[:5])
+				_, e6 := e.SetBytes(big[:7])
+				_, e7 := e.SetWideBytes(big)
+				X, Y, Z, T := p.ExtendedCoordinates()
+				_, e8 := p.SetExtendedCoordinates(Y, X, Z, T)
+				extra = fmt.Sprintf(" errs=%v|%v|%v|%v|%v|%v|%v|%v p=%x s=%x e=%x", e1, e2, e3, e4, e5, e6, e7, e8, p.Bytes(), s.Bytes(), e.Bytes())
+				recv = edwards25519.NewIdentityPoint()
+			case "ScalarSweep":
+				a, b, c := sc(op.S[0]), sc(op.S[1]), sc(op.S[2])
+				s := new(edwards25519.Scalar).Add(a, b)
+				s.Multiply(s, c).Negate(s).Invert(s)
+				cl, _ := new(edwards25519.Scalar).SetBytesWithClamping(a.Bytes())
+				cn, _ := new(edwards25519.Scalar).SetCanonicalBytes(s.Bytes())
+				extra = fmt.Sprintf(" s=%x cl=%x eq=%d/%d", s.Bytes(), cl.Bytes(), cn.Equal(s), a.Equal(b))
+				recv = edwards25519.NewIdentityPoint()
+			case "ElementSweep":
+				X, Y, Z, T := pt(op.P[0]).ExtendedCoordinates()
+				var a, b, c field.Element
+				a.Square(X).Mult32(&a, 121666).Add(&a, Y)
+				b.Pow22523(Z)
+				c.Select(&a, &b, T.IsNegative())
+				a.Swap(&b, 1)
+				w, _ := new(field.Element).SetWideBytes(append(a.Bytes(), b.Bytes()...))
+				sb, _ := new(field.Element).SetBytes(sc(op.S[0]).Bytes())
+				c.Negate(&c).Subtract(&c, sb)
+				var z, o field.Element
+				z.Zero()
+				o.One()
+				extra = fmt.Sprintf(" a=%x b=%x c=%x w=%x eq=%d/%d", a.Bytes(), b.Bytes(), c.Bytes(), w.Bytes(), z.Equal(&o), a.Equal(&b))
+				recv = edwards25519.NewIdentityPoint()
+			case "MultiMany":
+				var ss []*edwards25519.Scalar
+				var ps []*edwards25519.Point
+				for k := range op.S {
+					ss = append(ss, sc(op.S[k]))
+					ps = append(ps, pt(op.P[k]))
+				}
+				recv.MultiScalarMult(ss, ps)
+				v := new(edwards25519.Point).VarTimeMultiScalarMult(ss, ps)
+				extra = fmt.Sprintf(" vartime-equal=%d", v.Equal(recv))
 			case "NewGenerator":
 				recv = edwards25519.NewGeneratorPoint()
 			case "ScalarInvert":
